@@ -14,6 +14,7 @@ import (
 
 	"github.com/scrapli/scrapligo/channel"
 	"github.com/scrapli/scrapligo/driver/netconf"
+	"github.com/scrapli/scrapligo/driver/network"
 	"github.com/scrapli/scrapligo/driver/options"
 
 	"verif/harness/sim"
@@ -62,7 +63,7 @@ type c07Obs struct {
 
 func genC07(r *sim.Rng) *c07Case {
 	c := &c07Case{}
-	c.Driver = r.Pick([]string{"generic", "generic", "network", "netconf", "netconf"})
+	c.Driver = r.Pick([]string{"generic", "generic", "network", "network-hook", "netconf", "netconf"})
 	c.State = r.Pick([]string{"idle", "blocked", "eof", "ioerr", "data-arriving", "error-arriving", "second-close", "after-op"})
 	c.OnClose = r.Intn(3)
 	c.DelayUS = []int{1, 20, 250, 1000}[r.Intn(4)] // grace = delay*(delay/1000): 1 ms -> 1 s
@@ -74,7 +75,7 @@ func runC07(seed uint64, n int, tier string) {
 	rng := sim.NewRng(seed)
 	var cases []*c07Case
 	// the scenario table first (every driver x state x close behaviour at the default delay)
-	for _, d := range []string{"generic", "network", "netconf"} {
+	for _, d := range []string{"generic", "network", "network-hook", "netconf"} {
 		for _, s := range []string{"idle", "blocked", "eof", "ioerr", "data-arriving", "error-arriving", "second-close", "after-op"} {
 			for oc := 0; oc < 3; oc++ {
 				cases = append(cases, &c07Case{Driver: d, State: s, OnClose: oc, DelayUS: 250})
@@ -300,6 +301,20 @@ func c07Child() {
 	switch c.Driver {
 	case "netconf":
 		d, err := netconf.NewDriver("sim", options.WithCustomTransport(tr), options.WithReadDelay(delay), options.WithTimeoutOps(2*time.Second))
+		if err != nil || d.Open() != nil {
+			fmt.Println(`{"panicked":"setup failed"}`)
+			return
+		}
+		closer = d.Close
+	case "network-hook":
+		// a network driver with the usual on-close hook of the platform definitions: get to the
+		// default level, say "exit".  On a dead connection the hook fails; Close must still close.
+		d, err := newNetworkSimple(tr, delay, options.WithTimeoutOps(300*time.Millisecond), options.WithNetworkOnClose(func(nd *network.Driver) error {
+			if err := nd.AcquirePriv(nd.DefaultDesiredPriv); err != nil {
+				return err
+			}
+			return nd.Channel.WriteAndReturn([]byte("exit"), false)
+		}))
 		if err != nil || d.Open() != nil {
 			fmt.Println(`{"panicked":"setup failed"}`)
 			return
